@@ -222,3 +222,30 @@ Qed.
 Lemma sinv_pinv2 s : sinv s -> pinv2 (pth s). Proof. now intros [H _]. Qed.
 Lemma sinv_init : sinv pst_init.
 Proof. split; [apply pinv2_init|cbn; lia]. Qed.
+
+(* unconditional part of mpt_path_add *)
+Lemma path_add_elems p n c p' :
+  path_add p n = (c, p') ->
+  (c < 0 /\ p' = p) \/ (c = 0 /\ pelems p' = pelems p ++ [firstn (Z.to_nat n) (ppost p)]).
+Proof.
+  unfold path_add. intros E.
+  destruct (negb (pbuf p)); [inversion E; left; split; [reflexivity|auto]|].
+  destruct ((n <? 0) || (plen p <? n)); [inversion E; left; split; [reflexivity|auto]|].
+  destruct (existsb _ _); inversion E; subst; [left; split; [reflexivity|auto]|].
+  right. split; reflexivity.
+Qed.
+Lemma path_add_pinv p n c p' : pinv2 p -> path_add p n = (c, p') -> pinv2 p'.
+Proof.
+  intros H E. destruct (path_add_spec p n c p' H E) as [[_ ->]|(_ & _ & _ & G)]; assumption.
+Qed.
+Lemma path_del_elems p c p' :
+  path_del p = (c, p') -> (c < 0 /\ p' = p) \/ (0 <= c /\ pelems p <> [] /\ pelems p' = removelast (pelems p)).
+Proof.
+  intros E. destruct (path_del_spec p c p' E) as [(A & B & _)|(A & B & C & _)]; [left|right]; auto.
+Qed.
+Lemma path_del_pinv p c p' : pinv2 p -> path_del p = (c, p') -> pinv2 p' /\ (0 <= c -> plen p' = 0).
+Proof.
+  intros H E. destruct (path_del_spec p c p' E) as [(A & -> & _)|(A & B & C & D & F & G)].
+  - split; [assumption|lia].
+  - split; [|auto]. split; [unfold pinv; now rewrite D, F|intros; assumption].
+Qed.
